@@ -1,3 +1,4 @@
+import re
 from itertools import chain
 from textwrap import indent
 from typing import List
@@ -46,7 +47,8 @@ def render_not_inline_reference(model: Reference) -> str:
     result = comment_to_dbml(model.comment) if model.comment else ''
     result += 'Ref'
     if model.name:
-        result += f' {model.name}'
+        # a name that is not a single word only parses back when quoted
+        result += f' {model.name}' if re.fullmatch(r'\w+', model.name) else f' "{model.name}"'
 
     result += (
         ' {\n    '  # type: ignore
